@@ -133,5 +133,85 @@ theorem nextFiltered_refines (w : Arche.World) (ext : Ext) (I : LenInterp w (arc
       rw [BitVec.toNat_sub_of_le hle, h1]
       rfl
 
+/-! ### the batch walk -/
+
+theorem firstFromN_batch (w : Arche.World) (lenOf : Option Nat → BitVec 32) (I : LenInterp w lenOf) (bs : Array BatchEntry) (n : Nat) :
+    ∀ k, k + n = bs.size → firstFromN lenOf (bs.toList.map (fun b => some b.tbl)) n k = Arche.Query.firstBatch w bs k := by
+  induction n with
+  | zero =>
+    intro k hk
+    have : ¬ k < bs.size := by omega
+    rw [Arche.Query.firstBatch]
+    simp [firstFromN, this]
+  | succ n ih =>
+    intro k hk
+    have hkl : k < bs.size := by omega
+    rw [Arche.Query.firstBatch]
+    have hget : (bs.toList.map (fun b => some b.tbl))[k]? = some (some bs[k].tbl) := by simp [hkl]
+    simp only [firstFromN, hget, hkl, ↓reduceDIte]
+    by_cases hz : (lenOf (some bs[k].tbl) == 0#32) = true
+    · have := (lenOf_zero_iff w lenOf I bs[k].tbl).mp hz
+      simp only [hz, ↓reduceIte, this]
+      exact ih (k + 1) (by omega)
+    · have hpos : (w.tableOf bs[k].tbl).rows.size > 0 := by
+        rcases Nat.eq_zero_or_pos (w.tableOf bs[k].tbl).rows.size with h0 | h0
+        · exact absurd ((lenOf_zero_iff w lenOf I bs[k].tbl).mpr (by omega)) hz
+        · exact h0
+      simp only [hz, Bool.false_eq_true, ↓reduceIte, hpos]
+
+/-- the regenerated batch record a model batch stands for -/
+def absBatch (b : batchArchetypes) (bs : Array BatchEntry) : Prop :=
+  b.Archetype.arr.toList = bs.toList.map (fun e => some e.tbl) ∧
+  b.StartIndex.arr.toList = bs.toList.map (fun e => BitVec.ofNat 32 e.start) ∧
+  b.EndIndex.arr.toList = bs.toList.map (fun e => BitVec.ofNat 32 e.stop)
+
+variable (archsGetF : GoAny → BitVec 32 → Option Nat) (archsLenF : GoAny → BitVec 32) (asBatchF : GoAny → Option batchArchetypes)
+
+/-- **`Query.nextBatch` moves to the entry the model's batch walk moves to** (`firstBatch`): under the interpretation of
+    table lengths by the model and of the batch record by the model's entries, the code answers true exactly when the
+    model finds a further entry with a non-empty destination table, and then stands on that entry's table at its
+    recorded rows `start … stop − 1`; otherwise it closes the query -/
+theorem nextBatch_refines (w : Arche.World) (ext : Ext) (I : LenInterp w (archLenF ext)) (q : P64.Query) (b : batchArchetypes) (bs : Array BatchEntry)
+    (k : Nat) (hb : asBatchF q.nodeArchetypes = some b) (habs : absBatch b bs) (hsz : bs.size < 2147483648)
+    (hlen : archsLenF q.nodeArchetypes = BitVec.ofInt 32 (b.Archetype.arr.size : Int))
+    (hget : ∀ i, i < b.Archetype.arr.size → archsGetF q.nodeArchetypes (BitVec.ofInt 32 (i : Int)) = b.Archetype.arr.toList[i]?.getD none)
+    (hk : k ≤ bs.size) (hidx : q.archIndex = BitVec.ofInt 32 ((k : Int) - 1)) :
+    match Arche.Query.firstBatch w bs k with
+    | some j => ∃ q', Query.nextBatch archAccessF archLenF archsGetF archsLenF asBatchF closeQueryF q ext = some (q', ext, true) ∧
+        q'.archIndex = BitVec.ofInt 32 (j : Int) ∧ q'.archetype = some (bs.getD j default).tbl ∧
+        q'.entityIndex = BitVec.ofNat 32 (bs.getD j default).start ∧ q'.entityIndexMax = BitVec.ofNat 32 (bs.getD j default).stop - 1#32
+    | none => ∃ q' e', Query.nextBatch archAccessF archLenF archsGetF archsLenF asBatchF closeQueryF q ext = some (q', e', false) := by
+  obtain ⟨hA, hS, hE⟩ := habs
+  have hsize : b.Archetype.arr.size = bs.size := by have := congrArg List.length hA; simpa using this
+  have hs1 : b.StartIndex.arr.size = b.Archetype.arr.size := by have := congrArg List.length hS; simp at this; omega
+  have hs2 : b.EndIndex.arr.size = b.Archetype.arr.size := by have := congrArg List.length hE; simp at this; omega
+  have hsome : ∀ a ∈ b.Archetype.arr.toList, a.isSome = true := by
+    intro a ha; rw [hA] at ha
+    obtain ⟨t, _, rfl⟩ := List.mem_map.mp ha
+    rfl
+  have hspec := nextBatch_spec archAccessF archLenF closeQueryF archsGetF archsLenF asBatchF q ext k b hb (by omega) hs1 hs2 hsome hlen hget (by omega) hidx
+  have hff : firstFrom (archLenF ext) b.Archetype.arr.toList k = Arche.Query.firstBatch w bs k := by
+    unfold firstFrom
+    rw [hA]
+    simp only [List.length_map, Array.length_toList]
+    exact firstFromN_batch w (archLenF ext) I bs (bs.size - k) k (by omega)
+  rw [hff] at hspec
+  cases hf : Arche.Query.firstBatch w bs k with
+  | none => rw [hf] at hspec; exact ⟨_, _, hspec⟩
+  | some j =>
+    rw [hf] at hspec
+    have hj : j < bs.size := by
+      have := firstFrom_some (archLenF ext) b.Archetype.arr.toList k j (by rw [hff]; exact hf)
+      have h2 := this.2.1
+      simp only [Array.length_toList] at h2
+      omega
+    refine ⟨_, hspec, rfl, ?_, ?_, ?_⟩
+    · show b.Archetype.arr.toList[j]?.getD none = _
+      rw [hA]; simp [hj, Array.getD, Array.getElem?_eq_getElem hj]
+    · show b.StartIndex.arr.toList[j]?.getD 0#32 = _
+      rw [hS]; simp [hj, Array.getD, Array.getElem?_eq_getElem hj]
+    · show b.EndIndex.arr.toList[j]?.getD 0#32 - 1#32 = _
+      rw [hE]; simp [hj, Array.getD, Array.getElem?_eq_getElem hj]
+
 end
 end Arche.Props.C03_IterModel64
